@@ -91,6 +91,20 @@ fn value(p: &mut P<'_>) -> Value {
             p.next();
             Value::from(a)
         }
+        // `[t` an array with the trailing-comma flag set through the API, `[c` the same and then emptied with `clear`
+        f @ ("[t" | "[c") => {
+            let mut a = Array::new();
+            while p.peek() != "]" {
+                let v = value(p);
+                a.push(v);
+            }
+            p.next();
+            a.set_trailing_comma(true);
+            if f == "[c" {
+                a.clear();
+            }
+            Value::from(a)
+        }
         "[i" => {
             let mut vs = Vec::new();
             while p.peek() != "]" {
